@@ -488,6 +488,24 @@ def c08(m, obs, mech, cals=None):
                 if not ok:
                     continue
             n_tasks += 1
+            # sub-slot clause (seeded change C08-c): the task does not wait INSIDE its first booked slot either.  Its start
+            # may lie behind the slot start only as far as its bound or the other tasks with seconds in that slot (their
+            # reserved heads included: everything up to the latest end of another task in the slot) explain.
+            mine = obs.per_task.get(tid, {}).get(rid, {})
+            if mine:
+                f = min(mine)
+                a = obs.slot_start(m, f)
+                b = a + L
+                if cal.slot(a) == "full" and a <= o["start"] < b:
+                    cover = max(bound, a)
+                    for t2, s2 in used.get(f, []):
+                        if t2 == tid:
+                            continue
+                        o2 = obs.T.get(t2)
+                        cover = max(cover, b if (not o2 or o2["end"] is None) else min(o2["end"], b))
+                    if o["start"] > cover + timedelta(seconds=1):
+                        out.append(V("C08", "asap-waits-inside-first-slot", dict(task=tid, r=rid, slot=f, slot_start=a, bound=bound, start=o["start"], explained_until=cover),
+                                     mech.task(tid, rid)))
             i0 = -(-int((bound - obs.start).total_seconds()) // (res * 60))
             i1 = int((o["end"] - obs.start).total_seconds()) // (res * 60)
             for idx in range(max(i0, 0), i1):
